@@ -273,6 +273,10 @@ UFUNS.update({
     # angle between two 3-D vectors (radians), as a function of their six components; defined by vangle_definition
     # (arccos of the normalised dot product), which is what angle_between_vectors is proved to return
     "vangle6": (["real"] * 6, "real"),
+    # rlt(a, b): residue a sorts before residue b; defined by residue_order_definition as the lexicographic order of
+    # (model, chain, number, insertion code or " "), which is what Residue3D.__lt__ is proved to return.  An abbreviation:
+    # it keeps string comparisons out of the verification conditions of find_stackings.
+    "rlt": (["int", "int"], "bool"),
     # squared Euclidean distance of two points (x1, y1, z1, x2, y2, z2); left uninterpreted, see ext_query_pairs
     "sqdist": (["real"] * 6, "real"),
 })
@@ -368,7 +372,12 @@ SPEC_EXTERNALS.update({"some": "spec.some", "dot": "numpy.dot"})
 # --------------------------------------------------------------------------------------------------- vocabulary of C04
 @spec
 def res_lt(a, b):
-    """the residue order: (model,) chain, number, insertion code"""
+    """the residue order: (model,) chain, number, insertion code - see residue_order_definition"""
+    return rlt(a, b)
+
+
+@spec
+def res_key_lt(a, b):
     return (a.model, a.chain, a.number, a.icode or " ") < (b.model, b.chain, b.number, b.icode or " ")
 
 
@@ -531,6 +540,7 @@ class res_lt_c:
     returns = "bool"
     raises = []
     modifies = []
+    ghost_entry = ["use residue_order_definition(self, other)"]
     ensures = ["result == res_lt(self, other)"]
     ensures_labels = {0: "order-by-model-chain-number-icode"}
 
@@ -656,6 +666,7 @@ LEMMAS.update({
     "centroid_definition": {"kind": "definition", "params": ["r"],
                             "ensures": ["cnt_base(r) == cntp(r, NBASE)",
                                         "implies(cnt_base(r) > 0, cenx(r) * cnt_base(r) == sumxp(r, NBASE) and ceny(r) * cnt_base(r) == sumyp(r, NBASE) and cenz(r) * cnt_base(r) == sumzp(r, NBASE))"]},
+    "residue_order_definition": {"kind": "definition", "params": ["a", "b"], "ensures": ["rlt(a, b) == res_key_lt(a, b)"]},
     "vangle_definition": {"kind": "definition", "params": ["u", "v"],
                           "ensures": ["vangle(u, v) == acos(dot(u, v) / norm(u) / norm(v))"]},
     # --- algebra, proved ---
